@@ -28,6 +28,7 @@ pub(crate) struct TCfg {
     pub tabs_k: usize,        // SYM: Tabs::new(cols); k: any G6 set of k stops
     pub fill: Fill,
     pub asrow: usize,         // row of the *other* screen's saved cursor, SYM = any inside that screen
+    pub big: bool,            // scalar slice: `cols` / `rows` fields symbolic up to 2^31 over 1x1 buffers (cursor arithmetic only)
 }
 
 pub(crate) const fn cfg(cols: usize, rows: usize) -> TCfg {
@@ -46,6 +47,7 @@ pub(crate) const fn cfg(cols: usize, rows: usize) -> TCfg {
         tabs_k: SYM,
         fill: Fill::Sym,
         asrow: SYM,
+        big: false,
     }
 }
 
@@ -73,6 +75,38 @@ fn any_saved_ctx(cols: usize, rows: usize) -> SavedCtx {
 /// an arbitrary terminal satisfying InvT (DESIGN.md section 3.1) within the instance's geometry.
 /// Dirty flags start cleared (the state right after `changes()`).
 pub(crate) fn mk_terminal(c: &TCfg) -> Terminal {
+    let mut t = mk_terminal_small(c);
+    if c.big {
+        // Scalar slice for the cursor arithmetic: the size *fields*, cursor, margins and saved position
+        // range over every screen size up to 2^31 x 2^31 while the buffers stay 1x1.  Sound only for
+        // operations that read no buffer, flag or tab stop - any such access by the operation under
+        // test would hit the 1x1 buffers and be reported as a panic.
+        let cols = any_usize();
+        let rows = any_usize();
+        assume(cols >= 1 && cols <= (1usize << 31) && rows >= 1 && rows <= (1usize << 31));
+        let col = any_usize();
+        let row = any_usize();
+        assume(col <= cols && row < rows);
+        let top = any_usize();
+        let bottom = any_usize();
+        assume(bottom < rows && (top < bottom || (rows == 1 && top == 0 && bottom == 0)));
+        t.cols = cols;
+        t.rows = rows;
+        t.cursor.col = col;
+        t.cursor.row = row;
+        t.pending_wrap = col == cols;
+        t.top_margin = top;
+        t.bottom_margin = bottom;
+        let sc = any_usize();
+        let sr = any_usize();
+        assume(sc < cols && sr < rows);
+        t.saved_ctx.cursor_col = sc;
+        t.saved_ctx.cursor_row = sr;
+    }
+    t
+}
+
+fn mk_terminal_small(c: &TCfg) -> Terminal {
     let (cols, rows) = (c.cols, c.rows);
     let alt = match c.alt {
         0 => false,
@@ -573,7 +607,7 @@ pub(crate) fn t_nocell(c: TCfg, op: NoCellOp) {
     let len = pre.len;
     let w = any_wit(len, c.cols);
     let e = resolve(&t, &w, Src::Same, MSrc::Same, len);
-    let (cols, rows) = (c.cols, c.rows);
+    let (cols, rows) = (pre.cols, pre.rows);
     let n = any_u16();
     let m = any_u16();
     let k = n1(n);
@@ -860,9 +894,15 @@ pub(crate) fn t_nocell(c: TCfg, op: NoCellOp) {
     frame(&pre, &t, &allow, &tw);
     check_exp!(&t, &w, e, "[C05][C20][FR] a command that is not an editing command changes no cell", "[FR] a command that is not an editing command changes no soft-wrap mark");
     if op == Ed3 || op == XtwinopsOff {
-        assert!(!dl_get(&t.dirty_lines, any_in(0, rows - 1)), "[C20] no changed line is reported by an inert sequence");
+        assert!(!dl_get(&t.dirty_lines, any_in(0, c.rows - 1)), "[C20] no changed line is reported by an inert sequence");
     }
-    assert_inv(&t);
+    if c.big {
+        assert!(t.cursor.row < rows && t.cursor.col <= cols && t.pending_wrap == (t.cursor.col == cols), "[C02][C05] the cursor stays inside a screen of any size");
+        assert!(t.bottom_margin < rows && (t.top_margin < t.bottom_margin || rows == 1), "[C02][C06] margins stay a valid region on a screen of any size");
+        kv_cover!(rows > 100000 && pre.row > 70000 && n == 65535, "a parameter of 65535 on a very tall screen");
+    } else {
+        assert_inv(&t);
+    }
     kv_cover!(pre.col == cols, "wrap-pending start");
     kv_cover!(pre.origin && pre.top > 0, "origin mode with a top margin");
     kv_cover!(pre.row > pre.bottom, "start below the region");
